@@ -80,6 +80,8 @@ UNIVERSES = [
     ("regex", ["u\\d+", "u1", "u[12]", "v.*"], ["g1", "g2", "g3"], ["u1", "u2", "u3", "v", "w", "g1"]),
     ("raising", ["/b/*", "/b/1"], ["g1", "g2"], ["/b/1", "/b/*", "g1"]),
     ("eq", ["a", "b"], ["g1", "g2"], ["a", "b", "g1"]),
+    ("prefix_star", ["/b/*", "/b/1", "/b/2", "/c/1"], ["g1", "g2"], ["/b/1", "/b/2", "/c/1", "/b/*", "g1"]),
+    ("prefix_star", ["/b/*", "/b/1", "/b/2", "/c/1"], ["g1", "g2"], ["/b/1", "/b/2", "/c/1", "/b/*", "g1"]),
 ]
 
 
@@ -211,7 +213,7 @@ def _enf(kind, filtered=False):
 
     prules = [["alice", grp, "read"] for grp in ROLES] if kind == "g2" else [[x, "any", "res_" + x, "read"] for x in ["a", "r", "s"]]
     text = RES_ROLE if kind == "g2" else DOM
-    if filtered:
+    if filtered is True:
         import tempfile
 
         from casbin.persist.adapters import FilteredFileAdapter
@@ -225,10 +227,21 @@ def _enf(kind, filtered=False):
         e._verif_tmp = f.name
     else:
         e = casbin.Enforcer(casbin.Enforcer.new_model(text=text))
+    if filtered == "swapped":
+        # the role manager is replaced by a new one BEFORE the registration; one build_role_links binds it
+        from casbin.rbac.default_role_manager import DomainManager, RoleManager
+
+        if kind == "g2":
+            e.set_named_role_manager("g2", RoleManager(10))
+        else:
+            e.set_role_manager(DomainManager(10))
     if kind == "g2":
         e.add_named_matching_func("g2", util.key_match2)
     else:
         e.add_named_domain_matching_func("g", util.key_match)
+    if filtered == "swapped":
+        e.build_role_links()
+        filtered = False
     if filtered:
         flt = Filter()
         flt.P, flt.G = (["alice"], []) if kind == "g2" else (["", "any"], [])
@@ -308,7 +321,7 @@ def enforce_probe(ctx, res, n):
     answers = rm_corr.run_driver("rm", lines)
     pos = 0
     for ci, (kind, hist) in enumerate(cases):
-        filtered = ci % 4 >= 2
+        filtered = [False, False, True, True, "swapped", "swapped"][ci % 6]
         e = _enf(kind, filtered)
         ans = answers[pos + 3 : pos + 3 + len(hist)]
         pos += 3 + len(hist)
@@ -327,7 +340,7 @@ def enforce_probe(ctx, res, n):
                 res.violation(
                     {
                         "signature": f"C14:enforce:{kind}",
-                        "what": f"Enforcer ({'g2(r.obj,p.obj) with key_match2' if kind == 'g2' else 'g(r.sub,p.sub,r.dom) with key_match on domains'}{', permission rules loaded by load_filtered_policy after the registration' if filtered else ''}): probe {l} = {got} after {hist[:i]}; the effective assignments give {spec}",
+                        "what": f"Enforcer ({'g2(r.obj,p.obj) with key_match2' if kind == 'g2' else 'g(r.sub,p.sub,r.dom) with key_match on domains'}{', role manager replaced before the registration' if filtered == 'swapped' else ', permission rules loaded by load_filtered_policy after the registration' if filtered else ''}): probe {l} = {got} after {hist[:i]}; the effective assignments give {spec}",
                         "enf_kind": kind,
                         "enf_filtered": filtered,
                         "enf_history": [[k2, list(l2)] for k2, l2 in hist[: i + 1]],
